@@ -9,7 +9,9 @@ impl AtomicDuration {
     pub fn new(dur: Option<Duration>) -> Self {
         let dur = match dur {
             None => 0,
-            Some(d) => d.as_millis() as usize,
+            // round up to whole milliseconds: never wait shorter than asked, and
+            // Some(0) must not turn into None which means waiting forever
+            Some(d) => d.as_nanos().div_ceil(1_000_000).max(1) as usize,
         };
 
         AtomicDuration(AtomicUsize::new(dur))
@@ -28,7 +30,9 @@ impl AtomicDuration {
     pub fn store(&self, dur: Option<Duration>) {
         let timeout = match dur {
             None => 0,
-            Some(d) => d.as_millis() as usize,
+            // round up to whole milliseconds: never wait shorter than asked, and
+            // Some(0) must not turn into None which means waiting forever
+            Some(d) => d.as_nanos().div_ceil(1_000_000).max(1) as usize,
         };
 
         self.0.store(timeout, Ordering::Relaxed);
